@@ -3,12 +3,12 @@ module ruxverif
 go 1.19
 
 require (
+	github.com/gookit/color v1.5.4
 	github.com/gookit/rux v0.0.0
 	github.com/gookit/validate v1.5.4
 )
 
 require (
-	github.com/gookit/color v1.5.4 // indirect
 	github.com/gookit/filter v1.2.2 // indirect
 	github.com/gookit/goutil v0.6.18 // indirect
 	github.com/monoculum/formam v3.5.5+incompatible // indirect
